@@ -1,7 +1,10 @@
 (* C20 model (c): the order of plugin callbacks within one build, mirroring
      /repo/internal/bundler/bundler.go  ScanBundle (on-start callbacks are
        started in goroutines, onStartWaitGroup.Wait() is the barrier before
-       anything is scanned), scanner.maybeParseFile (the visited map decides
+       anything is scanned: preprocessInjectedFiles - which runs the on-resolve
+       callbacks for every Inject path and starts their parse goroutines -,
+       addEntryPoints and scanAllDependencies all come after it),
+       scanner.maybeParseFile (the visited map decides
        whether a parse goroutine - which runs the on-load callback - is
        started), and
      /repo/pkg/api/api_impl.go  rebuildImpl (outputs are written, then the
@@ -31,7 +34,9 @@ Inductive bact :=
 | AResolve               (* an on-resolve callback runs (scan phase) *)
 | ALoad (id : nat)       (* a parse goroutine runs the on-load callback *)
 | AWrite                 (* scan finished, link, write outputs *)
-| AEndBegin | AEndEnd (failed : bool).
+| AEndBegin | AEndEnd (failed : bool)
+| AInjectResolve         (* preprocessInjectedFiles: on-resolve callback for an Inject path *)
+| AInjectVisit (id : nat). (* preprocessInjectedFiles: maybeParseFile for a resolved Inject path *)
 
 Fixpoint remove1 (k : nat) (l : list nat) : list nat :=
   match l with [] => [] | x :: r => if Nat.eqb k x then r else x :: remove1 k r end.
@@ -80,6 +85,16 @@ Definition bexec (nS nE : nat) (s : bst) (a : bact) : option (bst * option peven
       if b_endOpen s
       then Some (mkB (b_sb s) (b_se s) (b_barrier s) (b_visited s) (b_pending s) (b_loaded s)
                      (b_written s) (S (b_endNext s)) false f, Some (PEE (b_endNext s) f))
+      else None
+  (* the inject phase is part of the scan: it is guarded by the barrier exactly
+     like the resolution and the visit of ordinary imports *)
+  | AInjectResolve =>
+      if b_barrier s && negb (b_written s) then Some (s, Some PRes) else None
+  | AInjectVisit id =>
+      if b_barrier s && negb (b_written s) then
+        if memn id (b_visited s) then Some (s, None)
+        else Some (mkB (b_sb s) (b_se s) (b_barrier s) (id :: b_visited s) (id :: b_pending s) (b_loaded s)
+                       (b_written s) (b_endNext s) (b_endOpen s) (b_endStopped s), None)
       else None
   end.
 
